@@ -118,6 +118,12 @@ type c25Endpoint struct {
 	posts    []c25Post // successful
 	attempts int64     // failed attempts
 	lastFail uint64    // key of the last failed attempt
+	// finite retry limit: failed attempts per key in the current episode, and the events the
+	// leader has given up on (limit reached), in order, with what they carried
+	limit       int
+	failCount   map[uint64]int
+	dropOrder   []uint64
+	dropGroups  [][]c25Group
 	inflight atomic.Int64
 	tenure   func(node int) int
 }
@@ -169,6 +175,17 @@ func c25NewEndpoint() *c25Endpoint {
 		if !e.up.Load() {
 			e.attempts++
 			e.lastFail = p.key
+			if e.limit > 0 {
+				if e.failCount == nil {
+					e.failCount = map[uint64]int{}
+				}
+				e.failCount[p.key]++
+				if e.failCount[p.key] >= e.limit {
+					e.failCount[p.key] = 0
+					e.dropOrder = append(e.dropOrder, p.key)
+					e.dropGroups = append(e.dropGroups, p.groups)
+				}
+			}
 			w.WriteHeader(http.StatusServiceUnavailable)
 			return
 		}
@@ -252,6 +269,8 @@ type c25Node struct {
 	emitted  int64
 	pending  int
 	seenPost int
+	seenDrop int
+	maxRetries int
 	log      []c25Entry
 	snap     uint64
 	settleMs int
@@ -275,6 +294,10 @@ func (n *c25Node) start(t *testing.T) {
 	cfg.TransmitTimeout = 5 * time.Second
 	cfg.TransmitMinBackoff = time.Millisecond
 	cfg.TransmitMaxBackoff = 2 * time.Millisecond
+	if n.maxRetries > 0 {
+		v := n.maxRetries
+		cfg.TransmitMaxRetries = &v
+	}
 	n.cl.mu.Lock()
 	n.cl.leaderCh, n.cl.hwmCh, n.cl.syncCh = nil, nil, nil
 	n.cl.mu.Unlock()
@@ -349,7 +372,7 @@ func (n *c25Node) vec() c25Vec {
 	v := c25Vec{hwm: n.svc.HighWatermark(), l: n.svc.fifo.Len(), next: n.svc.fifo.HasNext(), posts: n.ep.nPosts(), wb: n.svc.writesToBatcher.Load()}
 	v.first, _ = n.svc.fifo.FirstKey()
 	v.highest, _ = n.svc.fifo.HighestKey()
-	if n.ep.up.Load() {
+	if n.ep.up.Load() || n.maxRetries > 0 {
 		v.attempts = n.ep.nAttempts()
 	}
 	return v
@@ -359,6 +382,9 @@ func (n *c25Node) vec() c25Vec {
 func (n *c25Node) settle() bool {
 	deadline := time.Now().Add(10 * time.Second)
 	win := time.Duration(n.settleMs) * time.Millisecond
+	if n.maxRetries > 0 && win < 15*time.Millisecond {
+		win = 15 * time.Millisecond // several retry intervals: the leader gives up on event after event
+	}
 	for time.Now().Before(deadline) {
 		// 1. hand-off channel drained into the batcher
 		wb := int64(n.svc.writesToBatcher.Load())
@@ -381,7 +407,7 @@ func (n *c25Node) settle() bool {
 				time.Sleep(50 * time.Microsecond)
 				continue
 			}
-			if n.ep.up.Load() && n.svc.fifo.HasNext() {
+			if (n.ep.up.Load() || n.maxRetries > 0) && n.svc.fifo.HasNext() {
 				time.Sleep(50 * time.Microsecond)
 				continue
 			}
@@ -397,7 +423,7 @@ func (n *c25Node) settle() bool {
 			continue
 		}
 		// an outage with something to send shows as at least one failed attempt
-		if n.leader && !n.ep.up.Load() && n.svc.fifo.HasNext() && n.ep.nAttempts() == 0 {
+		if n.maxRetries == 0 && n.leader && !n.ep.up.Load() && n.svc.fifo.HasNext() && n.ep.nAttempts() == 0 {
 			continue
 		}
 		time.Sleep(win)
@@ -472,15 +498,24 @@ func (n *c25Node) observe() string {
 	}
 	n.seenPost = len(n.ep.posts)
 	held := "-"
-	if n.leader && !n.ep.up.Load() && n.ep.attempts > 0 {
+	if n.maxRetries == 0 && n.leader && !n.ep.up.Load() && n.ep.attempts > 0 {
 		held = strconv.FormatUint(n.ep.lastFail, 10)
+	}
+	drop := ""
+	if len(n.ep.dropOrder) > n.seenDrop {
+		var ks []string
+		for _, k := range n.ep.dropOrder[n.seenDrop:] {
+			ks = append(ks, strconv.FormatUint(k, 10))
+		}
+		drop = " drop=" + strings.Join(ks, ",")
+		n.seenDrop = len(n.ep.dropOrder)
 	}
 	n.ep.mu.Unlock()
 	news := "-"
 	if len(nd) > 0 {
 		news = strings.Join(nd, ";")
 	}
-	return fmt.Sprintf("hwm=%d len=%d first=%d highest=%d next=%v batcher=%d held=%s new=%s", v.hwm, v.l, v.first, v.highest, v.next, n.pending, held, news)
+	return fmt.Sprintf("hwm=%d len=%d first=%d highest=%d next=%v batcher=%d held=%s new=%s%s", v.hwm, v.l, v.first, v.highest, v.next, n.pending, held, news, drop)
 }
 
 func (n *c25Node) setLeader(b bool) bool {
@@ -679,6 +714,7 @@ func (g *c25Gen) op() string {
 // ---- history runner ------------------------------------------------------------------------------
 
 type c25Hist struct {
+	droppedChg map[string]bool // changes carried by events the leader gave up on (finite retry limit)
 	broadcasts []uint64
 	postsAt    []int
 	maxHwmIn uint64 // highest HWM broadcast received from "other nodes": they delivered everything up to it
@@ -691,7 +727,7 @@ type c25Hist struct {
 	stepDown bool // a leader-off happened while an event was being retried
 }
 
-func c25RunHistory(t *testing.T, root string, hid int, batchSz int, tick time.Duration, ops []string, settleMs int) *c25Hist {
+func c25RunHistory(t *testing.T, root string, hid int, batchSz int, tick time.Duration, ops []string, settleMs int, maxRetries int) *c25Hist {
 	ResetStats()
 	h := &c25Hist{batchSz: batchSz}
 	ep := c25NewEndpoint()
@@ -699,11 +735,16 @@ func c25RunHistory(t *testing.T, root string, hid int, batchSz int, tick time.Du
 	dir := fmt.Sprintf("%s/h%d-%d", root, hid, settleMs)
 	os.MkdirAll(dir, 0o755)
 	defer os.RemoveAll(dir)
-	n := &c25Node{id: 0, dir: dir, batchSz: batchSz, tick: tick, ep: ep, cl: &c25Cluster{nPosts: ep.nPosts}, settleMs: settleMs}
+	n := &c25Node{id: 0, dir: dir, batchSz: batchSz, tick: tick, ep: ep, cl: &c25Cluster{nPosts: ep.nPosts}, settleMs: settleMs, maxRetries: maxRetries}
+	ep.limit = maxRetries
 	ep.tenure = func(int) int { return n.tenure }
 	n.start(t)
 	defer func() { n.svc.Stop() }()
-	h.ops = append(h.ops, fmt.Sprintf("reset %d 0", batchSz))
+	if maxRetries > 0 {
+		h.ops = append(h.ops, fmt.Sprintf("reset %d 0 %d", batchSz, maxRetries))
+	} else {
+		h.ops = append(h.ops, fmt.Sprintf("reset %d 0", batchSz))
+	}
 	h.out = append(h.out, "ok")
 	for _, op := range ops {
 		real := op
@@ -742,6 +783,16 @@ func c25RunHistory(t *testing.T, root string, hid int, batchSz int, tick time.Du
 	n.cl.mu.Unlock()
 	ep.mu.Lock()
 	h.posts = append([]c25Post(nil), ep.posts...)
+	for _, gs := range ep.dropGroups {
+		for _, g := range gs {
+			for _, c := range g.chg {
+				if h.droppedChg == nil {
+					h.droppedChg = map[string]bool{}
+				}
+				h.droppedChg[c] = true
+			}
+		}
+	}
 	ep.mu.Unlock()
 	h.ok = true
 	return h
@@ -783,6 +834,9 @@ func c25Judge(rep *vfReport, h *c25Hist, mode string) (lost, mislabelled int) {
 			class := "single-group-entry"
 			if multi {
 				class = "multi-statement-non-tx-entry"
+			}
+			if s == nil && h.droppedChg[c] {
+				continue // "unless a finite retry limit is configured and exhausted"
 			}
 			switch {
 			case s == nil:
@@ -890,6 +944,7 @@ func TestVerifC25(t *testing.T) {
 		var ops []string
 		b := 1 + r.Intn(4)
 		tick := time.Hour
+		mr := 0
 		g := &c25Gen{r: r, up: true}
 		if i < len(directed) {
 			b, ops = directed[i].b, directed[i].ops
@@ -909,7 +964,9 @@ func TestVerifC25(t *testing.T) {
 				g.multi = 15
 				g.heldRisk = true
 			}
-			if i%3 == 0 {
+			if i%5 == 4 {
+				mr = 2 // a finite retry limit: outages make the leader give up on events
+			} else if i%3 == 0 {
 				tick = 2 * time.Millisecond
 				g.ticks = true
 			}
@@ -919,10 +976,10 @@ func TestVerifC25(t *testing.T) {
 			}
 			ops = append(ops, c25Heal(g)...)
 		}
-		h := c25RunHistory(t, root, i, b, tick, ops, 2)
+		h := c25RunHistory(t, root, i, b, tick, ops, 2, mr)
 		if !h.ok {
 			// one more try with a much longer stability window before calling it a harness problem
-			h = c25RunHistory(t, root, i, b, tick, ops, 40)
+			h = c25RunHistory(t, root, i, b, tick, ops, 40, mr)
 			if !h.ok {
 				rep.Disagree(vfDisagreement{Component: "cdcpipe", Ops: vfTrunc(h.ops), Impl: vfTrunc(h.out), At: len(h.out) - 1, Note: "the real service never reached a quiescent point"})
 				continue
@@ -930,7 +987,7 @@ func TestVerifC25(t *testing.T) {
 		}
 		// model check of this history alone; on a mismatch re-run with a long stability window
 		if mo, err := vfModel("cdcpipe", h.ops); err == nil && vfFirstDiff(h.out, mo) >= 0 {
-			h2 := c25RunHistory(t, root, i, b, tick, ops, 40)
+			h2 := c25RunHistory(t, root, i, b, tick, ops, 40, mr)
 			if h2.ok {
 				h = h2
 				rep.Count("histories-rerun-with-long-settle-window")
@@ -978,6 +1035,10 @@ func TestVerifC25(t *testing.T) {
 		}
 		if h.stepDown {
 			rep.Count("histories-with-step-down-during-retry")
+		}
+		if mr > 0 {
+			rep.Count("histories-with-finite-retry-limit")
+			rep.CountN("events-given-up-on", len(h.droppedChg))
 		}
 		rep.Case(strings.Join(h.ops, ";"), len(h.posts) > 0 && nOut > 0 && nLead > 1 && (nRestart > 0 || nSync > 0))
 		if i == len(directed) || i == 0 {
